@@ -146,6 +146,25 @@ def doc_stream(tier, seed):
         yield 'values', params, doc
     for params, doc in g.gen_mixed(tier, seed):
         yield 'mixed', params, doc
+    for params, doc in gen_string_lookalikes():
+        yield 'string-lookalikes', params, doc
+
+
+def gen_string_lookalikes():
+    """string Properties whose values look like other dtypes, with ties and mixtures: the one default rule
+    that aggregates over a *set* of guesses - its outcome must not depend on set iteration order
+    (i.e. on the hash seed of the process)"""
+    import odml
+    pools = [['12', '12.5'], ['2011-12-01', '11:45:00'], ['1', '2', '2.5'], ['(1;2)', 'true'], ['12', '13'],
+             ['1.5', '2.5', 'x'], ['12:00:00', '2011-12-01 11:45:00'], ['True', '7'], ['a\nb', '3'],
+             ['3', '4.5', '2011-12-01', '11:45:00'], ['7', '7.5', '8', '8.5']]
+    for k, vals in enumerate(pools):
+        with h.quiet():
+            doc = odml.Document()
+            sec = odml.Section('s', 't', parent=doc)
+            odml.Property('p%d' % k, values=list(vals), dtype='string', parent=sec)
+            odml.Property('q%d' % k, values=list(reversed(vals)), dtype='string', parent=sec)
+        yield ('lookalike', k), doc
 
 
 def scope_objects(root):
